@@ -16,6 +16,8 @@ OptsOf(e) == [attriter |-> e.o.attriter, ml |-> e.o.ml, ci |-> [kind |-> e.o.ci.
 RECURSIVE EqD(_, _, _)
 EqD(a, b, exact) == /\ (IF exact THEN a.pairs = b.pairs ELSE SetOf(a.pairs) = SetOf(b.pairs) /\ Len(a.pairs) = Len(b.pairs))
                     /\ Len(a.children) = Len(b.children)
+                    \* the 'children' entry is present only when non-empty
+                    /\ ("ck" \in DOMAIN a => a.ck = (Len(b.children) > 0))
                     /\ \A i \in 1..Len(a.children): EqD(a.children[i], b.children[i], exact)
 EqImp(obs, t) == /\ obs.p = t.p
                  /\ Len(obs.attrs) = Len(t.attrs)
